@@ -67,7 +67,9 @@ def main(ctx):
                       timeout=2400 if ctx.thorough else 1200)
     st = {"invocations": 0, "by_tool": {}, "by_class": {}, "problems": {}, "readers": {}, "encodings": {}, "certificate": {},
           "logging": {}, "exit_codes": {}, "recipes": {}, "file_features": {}, "answers": {}, "judged_by_brute_force": 0,
-          "model_predictions": 0, "model_not_applicable": 0, "instances": 0}
+          "model_predictions": 0, "model_not_applicable": 0, "instances": 0,
+          "non_ascii_label_invocations": 0, "non_ascii_arg_invocations": 0, "non_ascii_witness_lines": 0,
+          "non_ascii_model_predictions": 0, "witness_lines_rerendered_by_model": 0, "label_styles": {}}
     distinct = set()
     instances = set()
     samples, err_samples = [], []
@@ -92,7 +94,16 @@ def main(ctx):
             m = mm.get(c.id)
             verdict = field(m.outs, "verdict") if m else "missing"
             mline = field(m.outs, "model") if m else None
+            mwit = field(m.outs, "modelwitness") if m else None
+            na = dict(kv.split("=", 1) for kv in (field(c.ins, "nonascii") or "").split())
+            na_labels = na.get("labels") == "1"
             if cls == "ok":
+                if na_labels:
+                    st["non_ascii_label_invocations"] += 1
+                if na.get("arg") == "1":
+                    st["non_ascii_arg_invocations"] += 1
+                if any(b >= 0x80 for b in strip_log(so)):
+                    st["non_ascii_witness_lines"] += 1
                 prob = hx(field(c.ins, "problem")).decode("ascii", "replace").upper()
                 st["problems"][prob] = st["problems"].get(prob, 0) + 1
                 opts = dict(kv.split("=", 1) for kv in (field(c.ins, "opts") or "").split())
@@ -107,6 +118,8 @@ def main(ctx):
                 st["recipes"][r] = st["recipes"].get(r, 0) + 1
                 for ft in (field(c.ins, "features") or "-").split(","):
                     st["file_features"][ft] = st["file_features"].get(ft, 0) + 1
+                    if ft.startswith("labels:"):
+                        st["label_styles"][ft[7:]] = st["label_styles"].get(ft[7:], 0) + 1
                 ans = strip_log(so)
                 a0 = ans.split(b"\n")[0][:3].decode("ascii", "replace")
                 a0 = "witness-only" if a0[:1] in ("w", "[") else a0
@@ -142,6 +155,14 @@ def main(ctx):
                 st["model_not_applicable"] += 1
                 continue
             st["model_predictions"] += 1
+            if cls == "ok" and na_labels:
+                st["non_ascii_model_predictions"] += 1
+            # the witness line the tool printed, re-rendered by the model (labels byte for byte)
+            if mwit is not None and (mwit == "same" or mwit.startswith("differs")):
+                st["witness_lines_rerendered_by_model"] += 1
+                if mwit != "same":
+                    corr = corr or (c, "witness line: the model renders the ids named by the tool as %r, the tool printed %r"
+                                    % (hx(mwit.split()[1] if len(mwit.split()) > 1 else "-"), strip_log(so)))
             mt = mline.split()
             if mt[0] == "nonzero":
                 if ex == "0":
@@ -183,6 +204,11 @@ def main(ctx):
         c, why = corr
         ctx.violation("correspondence Model.Cli vs the command-line tools no longer checks at %s `%s` (%s); the oracle (answer grammar + brute-force semantics) found no failing invocation among %d"
                       % (c.kind, field(c.ins, "cmdline"), why, st["invocations"]), c.text(), found_input=False)
+    if st["invocations"] > 500 and not ctx.violations and (st["non_ascii_label_invocations"] == 0 or st["non_ascii_arg_invocations"] == 0
+                                                            or st["non_ascii_witness_lines"] == 0):
+        ctx.violation("the run did not exercise non-ASCII Aspartix labels (labels %d, -a operands %d, witness lines %d): the generator of harness/src/cli.rs changed"
+                      % (st["non_ascii_label_invocations"], st["non_ascii_arg_invocations"], st["non_ascii_witness_lines"]),
+                      "no case\n", found_input=False)
     if not proofs_ok and not ctx.violations:
         bad = [o[0] for o in ctx.obligations if not o[1]]
         ctx.violation("proof obligations not discharged: %s" % ", ".join(bad), "theorems: %s\n" % ", ".join(bad), found_input=False)
@@ -196,14 +222,19 @@ def main(ctx):
         "evaluations": st["invocations"],
         "distinct_nontrivial": len(distinct),
         "rule": "both tools built from /repo's working tree and run as child processes (stdout, exit status captured; 20 s watchdog). "
-                "Well-formed stream: generated frameworks (<= %d arguments; all recipes of gen.rs) written as ICCMA'23 text (comments, CRLF, wide blanks, blank tail, missing final newline, duplicated attack lines) AND as Aspartix text (5 label styles incl. labels `YES`, `NO`, `w`; inner blanks; blank lines), each with all 21 problems in mixed-case spellings x a valid argument x reader spelling (-r/--reader/default) x --encoding (absent, aux_var, exp, hybrid) x certificate flag (-c/--with-certificate/absent) x --logging-level (off for 3 of 4; other levels: `![` log lines removed before judging), options shuffled; the ICCMA'23 wrapper on the same files. "
+                "Well-formed stream: generated frameworks (<= %d arguments; all recipes of gen.rs) written as ICCMA'23 text (comments, CRLF, wide blanks, blank tail, missing final newline, duplicated attack lines) AND as Aspartix text (6 label styles incl. labels `YES`, `NO`, `w` and identifiers with NON-ASCII decimal digits: Arabic-Indic, Devanagari, Bengali, Thai, fullwidth, mathematical bold (outside the BMP), also as -a operand; inner blanks; blank lines), each with all 21 problems in mixed-case spellings x a valid argument x reader spelling (-r/--reader/default) x --encoding (absent, aux_var, exp, hybrid) x certificate flag (-c/--with-certificate/absent) x --logging-level (off for 3 of 4; other levels: `![` log lines removed before judging), options shuffled; the ICCMA'23 wrapper on the same files. "
                 "Oracle (model independent): exit 0; stdout matches the answer grammar exactly (status line YES/NO and/or ONE witness line `w( <id>)*` / `[l1,...,lk]`, every line terminated, nothing else); status = brute-force credulous/skeptical acceptance (AF.all_exts); witness = an extension of the problem's semantics without duplicate, containing (DC) / omitting (DS) the argument, present iff the certificate was requested and the status has one; SE prints NO only when no extension exists. "
                 "Malformed stream: a FIXED enumerated family (exploration, not proof) of usage and input errors: non-zero exit (a panic status 101 is allowed) and no answer-looking line (YES, NO, w..., [...) on stdout. `problems` listing compared with the 21 names and with what was accepted. "
-                "Model.Cli predicts exit class and stdout from the argv tokens (status line compared byte for byte) where the token form is modelled | non-trivial = a well-formed invocation; distinct = distinct (tool, problem, instance, argument, options)" % (8 if ctx.thorough else 7),
+                "Model.Cli predicts exit class and stdout from the argv tokens AND THE BYTES OF THE FILE (the extracted readers build the instance; status line compared byte for byte; the witness line the tool printed is re-rendered by the model from the ids it names and compared byte for byte: label bytes, UTF-8 included) where the token form is modelled | non-trivial = a well-formed invocation; distinct = distinct (tool, problem, instance, argument, options)" % (8 if ctx.thorough else 7),
         "samples": samples + es[:6],
         "distribution": st,
         "error_classes": sorted(k for k in st["by_class"] if k.startswith("err")),
         "traces_validated_against_impl": st["model_predictions"],
+        "non_ascii_label_invocations": st["non_ascii_label_invocations"],
+        "non_ascii_arg_invocations": st["non_ascii_arg_invocations"],
+        "non_ascii_witness_lines": st["non_ascii_witness_lines"],
+        "non_ascii_model_predictions": st["non_ascii_model_predictions"],
+        "witness_lines_rerendered_by_model": st["witness_lines_rerendered_by_model"],
         "malformed_family_is": "exploration (fixed enumerated family), not proof: clap's tokenizer is not modelled",
     })
     ctx.assumptions += ["clap rejects what it documents (the tokenizer of clap 2 is not modelled; Model.Cli.parse_solve covers the `-o value` token form only)",
